@@ -272,7 +272,8 @@ def _crc(rep, M, ce, fn, RO, END, file, window_sv, stored, loop):
         raise Undecided("CRC loop target")
     c16 = vars.fresh("crc", 16)
     b8 = vars.fresh("octet", 8)
-    env2 = {acc: c16, loop.target.id: b8}
+    env2 = dict(env)  # (locals the prologue bound - e.g. an alias of a constant table - stay visible in the loop body)
+    env2.update({acc: c16, loop.target.id: b8})
     try:
         r = SymExec(M, ce, vars, MOD, CLS).run_body(loop.body, env2)
     except Top as e:
@@ -482,6 +483,8 @@ def _expected(rep, M, C, RO, END, file):
 
 
 def _nolines(sv):
+    if isinstance(sv, tuple) and len(sv) >= 3 and sv[0] == "call" and sv[1] in ("memoryview", "bytes", "bytearray") and len(sv[2]) == 1:
+        return _nolines(sv[2][0])  # a (read-only) view / copy of an octet string has the same octets
     if isinstance(sv, tuple):
         if sv and sv[0] == "call" and len(sv) == 4 and isinstance(sv[3], int):
             return ("call", sv[1], tuple(_nolines(x) for x in sv[2]))
